@@ -29,6 +29,8 @@ FILES = {
     # two units with the same file name in different directories (told apart by unit_path only)
     "api/views.py": "def index(p):\n" + FLOW % (8, 8) + "    return p\n",
     "admin/views.py": "def index(p):\n" + FLOW % (9, 9) + "    return p\n",
+    # a directory whose name only starts like the one a unit_path rule names with its trailing separator ("admin/")
+    "admin_legacy/views.py": "def index(p):\n" + FLOW % (24, 24) + "    return p\n",
     # classes with methods of the same name, told apart only by their attributes (decorators) or not at all
     "svc.py": "class Fetcher:\n    @staticmethod\n    def handle(p):\n" + (FLOW % (20, 20)).replace("    ", "        ") + "        return p\n\n"
               "    def run(self, p):\n" + (FLOW % (21, 21)).replace("    ", "        ") + "        return p\n\n"
@@ -66,7 +68,7 @@ SETTINGS = {
 }
 CALLS = {"a.py:main1": ["a.py:helper"], "conv.py:shared": ["conv.py:deep"]}
 CALLS.update({"conv.py:e%d" % i: ["conv.py:shared"] for i in (1, 2, 3, 4)})
-NO_FLOW = {"c.js:main1", "c.js:%unit_init", "api/views.py:%unit_init", "admin/views.py:%unit_init", "conv.py:%unit_init", "conv.py:deep", "conv.py:shared",
+NO_FLOW = {"c.js:main1", "c.js:%unit_init", "api/views.py:%unit_init", "admin/views.py:%unit_init", "admin_legacy/views.py:%unit_init", "conv.py:%unit_init", "conv.py:deep", "conv.py:shared",
            "svc.py:%unit_init"}
 
 
